@@ -348,8 +348,8 @@ func TestC13_HTTPLimiter(t *testing.T) {
 // wait is sufficient, and nothing is admitted beyond burst + average x elapsed/period.
 func TestC13_Quota(t *testing.T) {
 	rapid.Check(t, func(t *rapid.T) {
-		period := rapid.SampledFrom([]time.Duration{time.Hour, 24 * time.Hour, 30 * 24 * time.Hour}).Draw(t, "period")
-		avg := rapid.SampledFrom([]int64{100000, 3600000, 100000000, 3600000000, 4000000000}).Draw(t, "average")
+		period := rapid.SampledFrom([]time.Duration{time.Hour, 24 * time.Hour, 30 * 24 * time.Hour, 90 * 24 * time.Hour, 365 * 24 * time.Hour}).Draw(t, "period")
+		avg := rapid.SampledFrom([]int64{100000, 3600000, 100000000, 3600000000, 4000000000, 7000, 12345, 1000003}).Draw(t, "average")
 		burst := avg
 		if rapid.Bool().Draw(t, "smallerBurst") {
 			burst = avg / int64(rapid.IntRange(2, 10).Draw(t, "burstDiv"))
@@ -391,6 +391,9 @@ func TestC13_Quota(t *testing.T) {
 			switch rapid.IntRange(0, 3).Draw(t, "sizeClass") {
 			case 0:
 				n = rapid.Int64Range(1, 10000).Draw(t, "unitsSmall")
+				if n > burst {
+					n = burst
+				}
 			case 1:
 				n = rapid.Int64Range(1000000, 5000000).Draw(t, "unitsMB")
 				if n > burst {
@@ -450,13 +453,23 @@ func TestC13_Quota(t *testing.T) {
 // spelling of the header name), the client names may be long and differ only at the end.
 func TestC13_TwoClients(t *testing.T) {
 	rapid.Check(t, func(t *rapid.T) {
-		spelling := rapid.SampledFrom([]string{"X-Client", "x-client", "X-CLIENT", "Authorization", "X-Client-ID"}).Draw(t, "headerSpelling")
-		ex, err := utils.NewExtractor("request.header." + spelling)
+		spelling := rapid.SampledFrom([]string{"X-Client", "x-client", "X-CLIENT", "Authorization", "X-Client-ID", "client.ip"}).Draw(t, "headerSpelling")
+		byIP := spelling == "client.ip"
+		variable := "request.header." + spelling
+		if byIP { // the two clients are two peer addresses (any form an HTTP server reports), each on changing ports
+			variable = "client.ip"
+		}
+		ex, err := utils.NewExtractor(variable)
 		if err != nil {
 			t.Fatalf("NewExtractor: %v", err)
 		}
 		prefix := rapid.SampledFrom([]string{"", "client-", strings.Repeat("eyJhbGciOiJIUzI1NiJ9.", 4), strings.Repeat("k", 63), strings.Repeat("k", 64), strings.Repeat("k", 200)}).Draw(t, "namePrefix")
 		alice, bob := prefix+"alice", prefix+"bob"
+		if byIP {
+			pair := rapid.SampledFrom([][2]string{{"10.0.0.1", "10.0.0.2"}, {"10.0.0.1", "10.0.0.11"}, {"[2001:db8::1]", "[2001:db8::2]"}, {"[fe80::1%eth0]", "[fe80::2%eth0]"},
+				{"[fe80::a1%eth0]", "[fe80::b2%eth0]"}, {"[::ffff:10.0.0.1]", "[::ffff:10.0.0.2]"}, {"[fe80::1%eth0]", "10.0.0.1"}}).Draw(t, "peerAddresses")
+			alice, bob = pair[0], pair[1]
+		}
 		avg := int64(rapid.IntRange(1, 10).Draw(t, "average"))
 		burst := int64(rapid.IntRange(1, 10).Draw(t, "burst"))
 		rates := []gen.Rate{{Period: time.Second, Average: avg, Burst: burst}}
@@ -476,7 +489,11 @@ func TestC13_TwoClients(t *testing.T) {
 		}
 		do := func(who string) (bool, time.Duration) {
 			req := httptest.NewRequest("GET", "http://x/", nil)
-			req.Header.Set(spelling, who)
+			if byIP {
+				req.RemoteAddr = who + ":" + strconv.Itoa(rapid.IntRange(1024, 65535).Draw(t, "port"))
+			} else {
+				req.Header.Set(spelling, who)
+			}
 			rec := httptest.NewRecorder()
 			b := served
 			tl.ServeHTTP(rec, req)
